@@ -13,7 +13,8 @@ from checks import trace as T
 import histories
 
 PID = "C13"
-USER_EVENTS = ("inv", "foldcall", "bindrun", "cut", "upd")
+USER_EVENTS = ("inv", "foldcall", "bindrun", "cut", "upd", "nodeupd", "edgecb", "exrun", "memofn", "obschange", "perkeyfn")
+HANDLER_EVENTS = ("upd", "nodeupd")
 
 
 def variants(lines, base_ops, max_per_history):
@@ -34,9 +35,9 @@ def variants(lines, base_ops, max_per_history):
         live = [o for o, h in enumerate(handles) if h > 0]
         calls = [e for e in op.events if e.split()[0] in USER_EVENTS]
         for k in range(1, len(calls) + 1):
-            in_handler = calls[k - 1].startswith("upd")
+            in_handler = calls[k - 1].split()[0] in HANDLER_EVENTS
             # callbacks of one stabilise run in HashMap order: with several of them the k-th differs run to run
-            ambiguous = in_handler and sum(1 for c in calls if c.startswith("upd")) > 1
+            ambiguous = in_handler and sum(1 for c in calls if c.split()[0] in HANDLER_EVENTS) > 1
             tail = [f"read {o}" for o in live] + ["stabilise"] + [f"read {o}" for o in live] + ["isstable"]
             v = lines[:op.idx] + [f"crashat {k}"] + [lines[op.idx]] + tail
             out.append((f"s{op.idx}k{k}", v, op.idx + 1, in_handler, ambiguous))
@@ -89,7 +90,7 @@ def run(tier, seed):
     base = []
     for i in range(nbase):
         s = rng.randrange(1 << 30)
-        prof = rng.choice(["basic", "binds", "subs", "c01"])
+        prof = rng.choice(["basic", "binds", "subs", "c01", "expert"])
         base.append((f"{prof}-{s}", histories.history(s, 22, prof)))
     texts = [(hid, ec.history_text(hid, lines)) for hid, lines in base]
     bo = ec.run_all(impl["debug"], texts)
@@ -145,7 +146,7 @@ def run(tier, seed):
                checker_cmd="make -C coq && coqc theories/Properties/C13.v (Print Assumptions)",
                trusted_base=vlib.TRUSTED_BASE,
                evaluations=len(var), distinct_nontrivial=len(nontrivial),
-               rule=f"{nbase} generated base histories; for each stabilise of each, a panic injected at every user-function invocation "
+               rule=f"{nbase} generated base histories; for each stabilise of each, a panic injected at every user-function invocation (expert callbacks included) "
                     f"(capped at {per} crash points per history, evenly spread), followed by reads of every observer, a second stabilise, "
                     "reads again, and dropping everything; every (history, crash point) is non-trivial; distinct by hash",
                traces_validated_against_impl=len(var), disagreements=len(mismatches), oracle_failures=len(violations),
